@@ -918,3 +918,55 @@ def check_C11(tier, seed):
 
 
 CHECKS["C11"] = check_C11
+
+
+# ---------------------------------------------------------------------- C12
+def _tree_shape(t):
+    if t["k"] == "nil":
+        return "."
+    return "(" + _tree_shape(t["ref"]) + "|" + _tree_shape(t["alt"]) + ")"
+
+
+def check_C12(tier, seed):
+    run = Run("C12", tier, seed)
+    quick = tier == "quick"
+    run.rule = ("rule trees built with Add, `with refinement(c):` and `with alternative(c):` by TLC's builder machine: every "
+                "shape with <= MaxNodes branches (base; chains of alternatives; refinements under base, refinements and "
+                "alternatives; alternatives under refinements) x branch conditions over the base's variables, one tagged "
+                "conclusion per branch; each executed over random worlds; TLC computes which conclusion ripple-down rules "
+                "prescribe per assignment; non-trivial = distinct (shape, conditions) with >=2 different conclusions firing")
+    run.assumptions = QUERY_ASSUMPTIONS + ["branch conditions mention the base's variables only; one conclusion per branch"]
+    qc = QueryCheck(run)
+    rng = qc.rng
+    shapes = set()
+    for nv in (1, 2):
+        trees = run.export("GenRule", f"trees{nv}", "TREE", constants=dict(MaxNodes=3 if quick else 4, NConds=3 if quick else 4, NV=nv),
+                           invariants=("Export", "SizeOK"))
+        trees += run.export("GenRule", f"walk{nv}", "TREE", constants=dict(MaxNodes=6, NConds=6, NV=nv), invariants=("Export", "SizeOK"),
+                            simulate=300 if quick else 6000, depth=14)
+        cap = 1500 if quick else 30000
+        if len(trees) > cap:
+            trees = rng.sample(trees, cap)
+            run.exhaustive = False
+        for t in trees:
+            shapes.add(_tree_shape(t))
+            for _ in range(1 if quick else 2):
+                W, doms = _world_and_doms(rng, nv, quick)
+                q = {"vars": [{"cls": "A", "dom": doms[i]} for i in range(nv)], "flats": [], "bound": [], "desc": "entity",
+                     "quant": "an", "sel": [], "cond": {"k": "true"}, "tree": t, "varkeys": list(range(1, nv + 1))}
+                qc.add(W, [q], [{"op": "rule", "qi": 1}])
+
+    def nontrivial(t):
+        ev = t["evs"][0]
+        if ev.get("exc") == "none" and len({json_tag(i) for i in ev["insts"]}) >= 2:
+            return digest(t["qs"][0]["tree"])
+        return None
+
+    def json_tag(inst):
+        return inst["f"][1]["v"]
+    qc.execute(nontrivial)
+    run.extra["tree_shapes"] = len(shapes)
+    return run.finish()
+
+
+CHECKS["C12"] = check_C12
